@@ -5,7 +5,9 @@ pub mod common;
 pub mod r#gen;
 pub mod p_diff;
 pub mod p_files;
+pub mod p_matchers;
 pub mod p_merge;
+pub mod p_paths;
 
 use common::Ctx;
 
@@ -18,6 +20,10 @@ pub fn dispatch(ctx: &Ctx) -> Option<i32> {
         "C03" => p_diff::run_c03(ctx),
         "C04" => p_files::run_c04(ctx),
         "C05" => p_files::run_c05(ctx),
+        "C30" => p_matchers::run_c30(ctx),
+        "C31" => p_matchers::run_c31(ctx),
+        "C32" => p_paths::run_c32(ctx),
+        "C33" => p_paths::run_c33(ctx),
         _ => return None,
     })
 }
